@@ -728,15 +728,10 @@ def _is_f1(clause: str, case: Dict[str, Any]) -> bool:
     if _model_regions(case, exact=True)[0]:
         return True
     # beyond the exhaustive bound (sampled layouts of 5..7 areas) candidate formation's own
-    # defects change which candidate clusters exist, and the sweep model is no longer exact:
-    # fall back to the plain input feature (an origin-spanning area, at least two components,
-    # no inflated span - that is C06-F2)
-    if len(case["areas"]) <= 4 or _some_span_inflated(case):
-        return False
-    arcs = [arc for _, arc in case["areas"]]
-    masks = [arc_mask(arc, case["L"]) for arc in arcs]
-    pairs = [(a, b) for a in range(len(arcs)) for b in range(a + 1, len(arcs)) if masks[a] & masks[b]]
-    return len(components(len(arcs), pairs)) >= 2
+    # defects (C05-F1..F8) change which candidate clusters exist and the sweep model is no longer
+    # exact: fall back to the plain input feature (an origin-spanning area and no inflated span -
+    # the latter is C06-F2)
+    return len(case["areas"]) > 4 and not _some_span_inflated(case)
 
 
 def _some_span_inflated(case: Dict[str, Any]) -> bool:
@@ -778,9 +773,12 @@ def _is_f2(clause: str, case: Dict[str, Any]) -> bool:
     if (clause == "region-span-exact" or len(case["areas"]) > 4) and _some_span_inflated(case):
         return True       # (> 4 areas: sampled layouts, where the sweep model below is not exact)
     raises, sections, region_masks, arcs = _model_regions(case, exact=False)
-    if clause == "creation-succeeds":
-        return raises
     if raises:
+        # the inflated span reaches an area of another component: the pinned sweep then fails
+        # in add_region; a sweep that merges every overlapping section (the C06-F1 repair)
+        # swallows that area instead
+        return clause in ("creation-succeeds", "regions-are-components")
+    if clause == "creation-succeeds":
         return False
     length = case["L"]
     masks = [arc_mask(arc, length) for arc in arcs]
